@@ -763,15 +763,16 @@ class DatasetBuilder:
             val_array = val_array.combine_chunks()
         assert isinstance(val_array, pa.ListArray)
 
-        if dictionary:
-            val_array = pa.ListArray.from_arrays(
-                val_array.offsets, pc.dictionary_encode(val_array.values)
-            )
-
         nums = nums.to_numpy()
 
         # we have to do surgery on the offsets and values
         val_col = _expand_and_align_list_array(e_tbl.num_rows, nums, val_array)
+
+        if dictionary:
+            # encode the elements of the aligned column, keeping its null lists null
+            val_col = pa.ListArray.from_arrays(
+                val_col.offsets, pc.dictionary_encode(val_col.values), mask=val_col.is_null()
+            )
 
         self._tables[cls] = e_tbl.append_column(name, val_col)
         self.schema.entities[cls].attributes[name] = ColumnSpec(layout=AttrLayout.LIST)
